@@ -10,7 +10,7 @@ for d in sorted(glob.glob('/verif/seeded/C*-*')):
     sigs = {}
     for f in glob.glob(d + '/check_*.summary'):
         c = os.path.basename(f)[6:-8]
-        sigs[c] = sorted(set(re.findall(r'signature: (.*)', open(f).read())))[:8]
+        sigs[c] = sorted(set(re.findall(r'signature: (.*)', open(f, errors='replace').read())))[:8]
     m = re.search(r'demo_before=(\d+) demo_after=(\d+) tests=\[(.*?)\] checks=\[(.*?)\]', res)
     meta = {"property": agent.get("property") or old.get("property") or name.split('-')[0],
             "summary": agent.get("summary") or old.get("summary"),
